@@ -120,6 +120,7 @@ type execSpec struct {
 	opts     []z.ExecOption
 	rec      *Recorder
 	fmtTag   *string
+	ctxVals  map[string]any // what this call passes through WithCtxValue
 	factory  func() any // history steps only: a front-end request whose body cannot be decoded
 }
 
@@ -136,16 +137,21 @@ func (g *Gen) execSpecFor(n *Node) *execSpec {
 		e.in = &in
 		e.dest0 = reflect.Zero(e.t)
 	}
+	e.ctxVals = map[string]any{}
+	setCtx := func(k string, v any) {
+		e.ctxVals[k] = v
+		e.opts = append(e.opts, z.WithCtxValue(k, v))
+	}
 	if g.R.P(45) {
-		e.opts = append(e.opts, z.WithCtxValue("k1", fmt.Sprintf("v%d", g.R.Intn(100))))
+		setCtx("k1", fmt.Sprintf("v%d", g.R.Intn(100)))
 	}
 	if g.R.P(25) {
-		e.opts = append(e.opts, z.WithCtxValue("k2", g.R.Intn(100)))
+		setCtx("k2", g.R.Intn(100))
 	}
 	if g.R.P(15) {
 		// many context values in one call (stores with an inline part and a spill-over part)
 		for _, k := range ctxProbe[2 : 2+g.R.Intn(7)] {
-			e.opts = append(e.opts, z.WithCtxValue(k, g.R.Intn(100)))
+			setCtx(k, g.R.Intn(100))
 		}
 	}
 	if g.R.P(20) {
@@ -347,6 +353,12 @@ func NewHistoryCase(g *Gen, id int) (*Case, []string, string) {
 			cr.coqArg = "None"
 		} else {
 			cr.coqArg = "(Some " + CoqDval(reflect.ValueOf(cr.Arg), argNode(ids[cr.ID], cr.Kind)) + ")"
+		}
+		// ctx.Get inside every callback: exactly the values this call passed, nil for every other key
+		for _, k := range ctxProbe {
+			if !reflect.DeepEqual(cr.Ctx[k], probe.ctxVals[k]) {
+				c.CtxOK = false
+			}
 		}
 	}
 	return c, tags, strings.Join(notes, "\n")
